@@ -976,6 +976,14 @@ def pd_fill_silent(prog: Program) -> RuleResult:
     return r
 
 
+def _idkey(prog):
+    # 'every element ... is recorded in the symbol graph': the relation is recorded for the node the id index answers with - an entry a dead
+    # instance left behind must not keep a new owner at the same address out of the index (its relations land on throw-away nodes)
+    from .c14 import idkey
+
+    return idkey(prog)
+
+
 def mc_clear(prog: Program) -> RuleResult:
     """Assignment of a collection (and of the field to itself, and += / |=, which end in one) first empties the container and then adds the
     assigned elements: 'exactly the elements Python semantics dictate' needs the emptying to be total.  The builtin clear() is; removing the
@@ -1044,4 +1052,4 @@ def _pd_field(prog):
 
 def run(prog: Program, tier: str) -> List[RuleResult]:
     alias = pd_alias(prog)
-    return [guard(lambda: _pd_field(prog)), guard(lambda: _sg_purge(prog)), guard(lambda: pd_element(prog)), guard(lambda: mc_cover(prog)), guard(lambda: mc_hook(prog)), alias, guard(lambda: pd_aug(prog, not alias.failed)), guard(lambda: pd_seq(prog)), guard(lambda: pd_single(prog)), guard(lambda: mc_once(prog)), guard(lambda: pd_fresh(prog)), guard(lambda: mc_eq(prog)), guard(lambda: mc_args(prog)), guard(lambda: mc_reject(prog)), guard(lambda: pd_fill_silent(prog)), guard(lambda: mc_clear(prog)), guard(lambda: user_truth(prog, ["property_descriptor.property_descriptor", "property_descriptor.monitored_container", "property_descriptor.property_descriptor_relation"], 2))]
+    return [guard(lambda: _pd_field(prog)), guard(lambda: _sg_purge(prog)), guard(lambda: pd_element(prog)), guard(lambda: mc_cover(prog)), guard(lambda: mc_hook(prog)), alias, guard(lambda: pd_aug(prog, not alias.failed)), guard(lambda: pd_seq(prog)), guard(lambda: pd_single(prog)), guard(lambda: mc_once(prog)), guard(lambda: pd_fresh(prog)), guard(lambda: mc_eq(prog)), guard(lambda: mc_args(prog)), guard(lambda: mc_reject(prog)), guard(lambda: pd_fill_silent(prog)), guard(lambda: mc_clear(prog)), guard(lambda: _idkey(prog)), guard(lambda: user_truth(prog, ["property_descriptor.property_descriptor", "property_descriptor.monitored_container", "property_descriptor.property_descriptor_relation"], 2))]
